@@ -135,7 +135,17 @@ let read_history path : hist =
     | _ -> failwith "cfg line" in
   { name = !name; cfg = c; segs = List.rev !segs; raw_lines = !nlines }
 
-let dedup (l : node list) : node list = List.sort_uniq Stdlib.compare l
+exception Too_many of int
+let max_frontier = ref 6000
+(* ghost history fields are write-only: two nodes that differ only there behave alike *)
+let erase (n : node) : node =
+  { n with n_state = { n.n_state with g_inserted = []; g_raised = []; g_started = [] } }
+let dedup (l : node list) : node list =
+  let keyed = List.map (fun n -> (erase n, n)) l in
+  let r = List.sort_uniq (fun (a, _) (b, _) -> Stdlib.compare a b) keyed in
+  let r = List.map snd r in
+  if List.compare_length_with r !max_frontier > 0 then Stdlib.raise (Too_many (List.length r));
+  r
 
 let obs_kind = function
   | OEnqRet (_, _) -> "enqret" | OStartRet _ -> "startret" | OStopRet -> "stopret"
@@ -168,7 +178,7 @@ let label_name = function
   | ILoopAuditCheck -> "ILoopAuditCheck" | ILoopAuditConfirm -> "ILoopAuditConfirm"
   | ILoopCap -> "ILoopCap" | ILoopFlushTick -> "ILoopFlushTick" | ICycleBegin -> "ICycleBegin"
   | ICycleVisit -> "ICycleVisit" | ICycleRaise _ -> "ICycleRaise" | ICycleEnd -> "ICycleEnd"
-  | IBatchStart _ -> "IBatchStart" | ICbReturn _ -> "ICbReturn" | IBatchDone _ -> "IBatchDone"
+  | IBatchStart _ -> "IBatchStart" | ICbEnter _ -> "ICbEnter" | ICbReturn _ -> "ICbReturn" | IBatchDone _ -> "IBatchDone"
   | TAdvance _ -> "TAdvance"
 
 (* what the model offers at a dead end *)
@@ -201,18 +211,21 @@ let classify c (g : segment) (best : node) (mism : state list) : string * string
 
 let () =
   let fuel = big_nat 2000000 in
-  let files = List.tl (Array.to_list Sys.argv) in
+  let args = List.tl (Array.to_list Sys.argv) in
+  let mode, files = match args with m :: r -> (m, r) | [] -> ("replay", []) in
+  if mode <> "replay" then (prerr_endline ("unknown mode " ^ mode); exit 2);
   List.iter (fun path ->
       try
         let h = read_history path in
         let nseg = List.length h.segs in
         (match replay h.cfg dedup fuel h.segs with
-         | Accepted (_, mx) -> Printf.printf "ACCEPT %s segs=%d maxstates=%d\n" path nseg (int_of_nat mx)
+         | Accepted (_, mx) -> Printf.printf "ACCEPT %s segs=%d maxstates=%d\n%!" path nseg (int_of_nat mx)
          | Rejected (k, g, best, mism) ->
              let (kind, detail) = classify h.cfg g best mism in
              Printf.printf "REJECT %s seg=%d t=%d kind=%s :: %s\n" path (int_of_nat k) (int_of_z g.sg_time) kind detail
          | OutOfFuel k -> Printf.printf "FUEL %s seg=%d\n" path (int_of_nat k))
       with
+      | Too_many n -> Printf.printf "FUEL %s frontier=%d\n%!" path n
       | Unknown_obs k -> Printf.printf "REJECT %s seg=-1 t=-1 kind=unknown:%s :: observation the model does not know\n" path k
       | Failure m -> Printf.printf "ERROR %s %s\n" path m)
     files
